@@ -37,7 +37,7 @@ RULE = ("a case is one pixel of one call of subpixel_refinement (or approximate_
         "the pixel is valid and its centre cost is a number (the per-pixel guard is reached). Distinct by (method(s), "
         "measure, subpix, sample index relative to the ends, off-grid fraction, cost triple, mask). Pipeline cases: every "
         "pixel of every state a real legal pipeline (sad|ssd|zncc, subpix 1|2, median/bilateral filters, interpolating "
-        "cross-checking, 1-4 refinement steps, masks) hands to refinement_run, left and right maps; same non-triviality "
+        "cross-checking, 1-4 refinement steps, masks, per-pixel disparity grids) hands to refinement_run, left and right maps; same non-triviality "
         "rule, distinct by (method, measure, subpix, sample index, off-grid fraction, triple, mask).")
 ASSUMES = [
     "costs and disparities are exact rationals in the model; the kernels compute in float64 and store the disparity in "
@@ -710,7 +710,15 @@ def gen_pipeline_case(rng):
     right = [[rng.randrange(0, maxv) for _ in range(cols)] for _ in range(rows)]
     ml = [[1 if rng.random() < 0.04 else 0 for _ in range(cols)] for _ in range(rows)] if rng.random() < 0.5 else None
     mr = [[1 if rng.random() < 0.04 else 0 for _ in range(cols)] for _ in range(rows)] if rng.random() < 0.5 else None
-    return {"pipeline": names, "left": left, "right": right, "mask_left": ml, "mask_right": mr, "interval": [dmin, dmax]}
+    grids = None
+    if rng.random() < 0.35:
+        # per-pixel disparity intervals (grids): each pixel's own interval is a sub-interval of [dmin, dmax]
+        gmin = [[dmin + rng.randrange(0, 2) for _ in range(cols)] for _ in range(rows)]
+        gmax = [[dmax - rng.randrange(0, 2) for _ in range(cols)] for _ in range(rows)]
+        gmin[0][0], gmax[0][0] = dmin, dmax
+        grids = [gmin, gmax]
+    return {"pipeline": names, "left": left, "right": right, "mask_left": ml, "mask_right": mr, "interval": [dmin, dmax],
+            "grids": grids}
 
 
 def corpus_pipelines():
@@ -752,7 +760,11 @@ def run_pipeline(case):
     from harness import pandora_util as pu
 
     itv = tuple(case["interval"])
-    L = pu.image_dataset(np.array(case["left"], dtype=np.float32), disp=itv, mask=case["mask_left"])
+    if case.get("grids"):
+        L = pu.image_dataset(np.array(case["left"], dtype=np.float32), mask=case["mask_left"],
+                             grids=(np.array(case["grids"][0]), np.array(case["grids"][1])))
+    else:
+        L = pu.image_dataset(np.array(case["left"], dtype=np.float32), disp=itv, mask=case["mask_left"])
     R = pu.image_dataset(np.array(case["right"], dtype=np.float32), disp=None, mask=case["mask_right"])
     cfg = {"pipeline": {n: dict(c) for n, c in case["pipeline"]}}
     m = PandoraMachine()
@@ -873,6 +885,20 @@ def check_pipeline(ctx, case):
                 one = single_pixel_img(img, i, before[i], [snap["method"]])
                 ctx.violation(f"{clause}_{pixel_class(img, p, before[i], clause)}",
                               f"{where}, pixel {i}: {text}", to_json(one))
+            # "stays inside the PIXEL's disparity interval" with per-pixel grids (left map): a pixel that received a
+            # sample of its own interval must end inside its own interval (theorem C06_pixel_moved_costed + NaN costs
+            # outside the pixel's interval)
+            if case.get("grids") and snap["side"] == "left" and valid and p["disp"] is not None:
+                cols = len(case["left"][0])
+                lo, hi = case["grids"][0][i // cols][i % cols], case["grids"][1][i // cols][i % cols]
+                on_grid = ((p["disp"] - img["dmin"]) * img["subpix"]).denominator == 1
+                if on_grid and lo <= p["disp"] <= hi:
+                    ctx.count("pixel_grid_interval_checked")
+                    a = fq(after[i][0])
+                    if a is None or a < lo or a > hi:
+                        ctx.count("oracle_fail_pixel_interval")
+                        ctx.violation("pixel_interval_ongrid", f"{where}, pixel {i} with own interval [{lo},{hi}]: sample "
+                                      f"{p['disp']} refined to {after[i][0]}, outside its interval", case)
         if mod[0] != "ok":
             ctx.mismatch("pipeline_refine_step", {"where": where, "case": case}, "returned", mod[0])
             continue
